@@ -89,7 +89,7 @@ def pattern(act):
         return 'x1=x2' if x == y else 'none'
     if op == 'lincomb1':
         return 'out=None' if act['o'] == 0 else ('out=x1' if act['o'] == act['x'] else 'none')
-    if op in ('bin', 'ibin', 'assign', 'abin', 'rabin', 'iabin'):
+    if op in ('bin', 'ibin', 'assign', 'abin', 'rabin', 'iabin', 'pbin', 'rpbin', 'ipbin'):
         return 'x=y' if act['x'] == act['y'] else 'none'
     return '-'
 
@@ -108,14 +108,14 @@ def target(act):
     op = act['op']
     if op in ('lincomb', 'lincomb1', 'multiply', 'divide'):
         return act['o']
-    if op in ('ibin', 'iabin', 'isbin', 'ipow', 'assign', 'set_zero'):
+    if op in ('ibin', 'iabin', 'ipbin', 'isbin', 'ipow', 'assign', 'set_zero'):
         return act['x']
     return 0
 
 
 def reads(act):
     op = act['op']
-    if op in ('lincomb', 'bin', 'ibin', 'abin', 'rabin', 'iabin', 'multiply', 'divide'):
+    if op in ('lincomb', 'bin', 'ibin', 'abin', 'rabin', 'iabin', 'pbin', 'rpbin', 'ipbin', 'multiply', 'divide'):
         return {act['x'], act['y']}
     if op == 'assign':
         return {act['y']}
@@ -163,6 +163,14 @@ def perform(space, objs, act, dtype):
         return PYOP[act['f']](g(act['x']), g(act['y']))
     if op == 'ibin':
         return ibin(act['f'], g(act['x']), g(act['y']))
+    if op in ('pbin', 'rpbin', 'ipbin'):
+        # power-space broadcasting: the right operand is an element of the COMPONENT space (first component of object y)
+        comp = g(act['y'])[0]
+        if op == 'pbin':
+            return PYOP[act['f']](g(act['x']), comp)
+        if op == 'rpbin':
+            return PYOP[act['f']](comp, g(act['x']))
+        return ibin(act['f'], g(act['x']), comp)
     if op in ('abin', 'rabin', 'iabin'):
         arr = raw_array(g(act['y']))        # the caller's own ndarray (no copy): it must not be modified
         if op == 'abin':
@@ -334,9 +342,9 @@ def mirror_new_values(heap, act):
         return [add(_cmul(a, u), _cmul(b, v)) for u, v in zip(X, Y)]
     if op == 'lincomb1':
         return [_cmul(a, u) for u in X]
-    if op in ('bin', 'ibin', 'abin', 'iabin'):
+    if op in ('bin', 'ibin', 'abin', 'iabin', 'pbin', 'ipbin'):
         return [binf[act['f']](u, v) for u, v in zip(X, Y)]
-    if op == 'rabin':
+    if op in ('rabin', 'rpbin'):
         return [binf[act['f']](v, u) for u, v in zip(X, Y)]
     if op in ('sbin', 'isbin'):
         return [binf[act['f']](u, a) for u in X]
@@ -506,6 +514,9 @@ def run(ctx):
                 combo = cb[k % len(cb)]
                 if combo[0] == 'nested' and combo[1] < 4:
                     combo = ('tensor', combo[1], combo[2], 'C1')
+                if act['op'] in ('pbin', 'rpbin', 'ipbin'):
+                    # only meaningful on power spaces whose component length is a multiple of the abstract period
+                    combo = ('power', (4, 100, 50000, 8, 104)[k % 5], combo[2], 'C1')
                 prefill = (k % 2 == 0)
                 ev, info = execute(case, combo, prefill)
                 ev['tid'] = 0
